@@ -162,7 +162,13 @@ func init() {
 				unsup("freshPtr of %T", v)
 			}
 			o := p.object()
-			return []Value{Or(p.Nil, BoolConst(o != nil && o.Fresh && o.ID > s.allocBase && len(p.Path) == 0))}
+			// fresh = allocated after the state `old` refers to: the function entry in a postcondition, the start of
+			// the iteration in a loop body clause (so an object allocated once before the loop is NOT fresh there)
+			base := s.allocBase
+			if s.oldSnap != nil && s.oldSnap.maxObj > base {
+				base = s.oldSnap.maxObj
+			}
+			return []Value{Or(p.Nil, BoolConst(o != nil && o.Fresh && o.ID > base && len(p.Path) == 0))}
 		},
 		"unchangedBytes": func(s *State, fn *ssa.Function, args []Value, where string) []Value {
 			a := args[0].(*SliceV)
